@@ -6,13 +6,15 @@
 (b) real endpoints: credit given by the application reaches the wire with exactly that value (initial request-n, REQUEST_N),
     received credit reaches the publisher with exactly that value, and a responder using the library's sources never puts
     more PAYLOAD elements on the wire than the credit it received (stream and both directions of a channel)."""
+import os
 import asyncio
 from datetime import timedelta
 
 from harness import frames as FR, sim
 from harness.common import chunks, run_coq_cases, clist, cN, cbool
 
-MODEL_TARGETS = ['model/Publisher.vo', 'corr/C06Corr.vo', 'corr/Harness.vo']
+MODEL_TARGETS = ['model/Publisher.vo', 'corr/C06Corr.vo', 'corr/Harness.vo', 'model/Endpoint.vo', 'model/Network.vo',
+                 'corr/NetworkCorr.vo']
 ASSUMPTIONS = [
     'the internal scheduling of the producer tasks is asyncio\'s; the model covers every interleaving, the correspondence '
     'compares settled states and checks the safety bound at every intermediate loop iteration',
@@ -382,8 +384,20 @@ def correspond(ctx, corr, model_ok):
                  'iterations and cancel; (b) real server with these sources behind request-stream / request-channel and credit '
                  'arriving in several REQUEST_N frames with idle iterations in between; a recording publisher for the forwarded '
                  'amounts; real client for initial_request_n / Subscription.request values. non-trivial = credit and items both non-zero')
+    # the credit theorems of props/C06.v speak about model/Endpoint.v and model/Network.v: tied to the code by two RECORDED
+    # real endpoints with the harness as the link (harness/netrec.py), every event's effects — the REQUEST_N / request frames
+    # queued, the request(n) calls on recording producers — replayed through net_run inside Coq
+    from harness.props import c01
+    nets = c01.network_runs(ctx, corr) if os.environ.get('VERIF_C06_NO_NET') != '1' else []
+    for n in nets:
+        case = n.coq_case()
+        corr.count('network: request(n) calls on producers', case.count('PRequestN'))
+        corr.count('network: REQUEST_N frames queued', case.count('XEnq (FRequestN'))
+        corr.count('network: initial_request_n calls', case.count('LInitialN'))
     if not model_ok:
         return
+    if nets:
+        c01.network_corr(ctx, corr, nets, exact=False)
     shards = ['Definition cases : list case06 := [\n' + ';\n'.join(x[0] for x in ch) + '\n].'
               for ch in chunks(items, SHARD)]
     out = run_coq_cases(shards, HEADER, timeout=600)
